@@ -159,12 +159,18 @@ namespace Pistache::Http::Header
                                 "Invalid caching directive, missing delta-seconds");
                         }
 
+                        // str is not \0 terminated when it points into the receive
+                        // buffer: convert a terminated copy of what is left, and do
+                        // not let strtol() skip white space (CRLF) in front of it
+                        const std::string text(cursor.offset(), cursor.remaining());
+                        if (text.empty() || !std::isdigit(static_cast<unsigned char>(text[0])))
+                        {
+                            throw std::runtime_error(
+                                "Invalid caching directive, missing delta-seconds");
+                        }
                         char* end;
-                        const char* beg = cursor.offset();
-                        // @Security: if str is not \0 terminated, there might be a situation
-                        // where strtol can overflow. Double-check that it's harmless and fix
-                        // if not
-                        auto secs = strtol(beg, &end, 10);
+                        const char* beg = text.c_str();
+                        auto secs       = strtol(beg, &end, 10);
                         cursor.advance(end - beg);
                         if (!cursor.eof() && cursor.current() != ',')
                         {
